@@ -2040,22 +2040,20 @@ func (k *Kernel) handleReplayedHeader(
 		))
 	}
 
-	for proof.Round > s.Voting.Round {
-		// Later round than we expected.
-		// Each jump moves the voting view forward by one round,
-		// so keep jumping until the voting view is the replayed round;
-		// the replayed precommits are only valid for that round.
-		if err := k.jumpVotingRound(ctx, s, proof.Round); err != nil {
-			return tmelink.ReplayedHeaderInternalError{
-				Err: fmt.Errorf(
-					"failed to jump voting round to replayed round: %w",
-					err,
-				),
-			}
-		}
-	}
-
 	h, r := header.Height, proof.Round
+
+	// The replayed precommits are only valid for the replayed round,
+	// so they are checked against what we already hold for that round:
+	// the voting view, the next round view, or nothing if the round is further ahead.
+	// The voting view only moves to the replayed round once the replay is known to be acceptable;
+	// a rejected replay must not move the voting round.
+	var roundProofs map[string]gcrypto.CommonMessageSignatureProof
+	switch r {
+	case s.Voting.Round:
+		roundProofs = s.Voting.PrecommitProofs
+	case s.NextRound.Round:
+		roundProofs = s.NextRound.PrecommitProofs
+	}
 
 	// The replayed header must belong to the chain we are following:
 	// it has to be voted on by the validator set we expect at this height,
@@ -2129,7 +2127,7 @@ func (k *Kernel) handleReplayedHeader(
 	tempProofs := make(map[string]gcrypto.CommonMessageSignatureProof, len(proof.Proofs))
 	for hash, sparseSigs := range proof.Proofs {
 		// First, set up the local copy of the proof.
-		haveProof := s.Voting.PrecommitProofs[hash]
+		haveProof := roundProofs[hash]
 		if haveProof == nil {
 			// No precommit data exists, so build it.
 			precommitContent, err := tmconsensus.PrecommitSignBytes(
@@ -2226,6 +2224,20 @@ func (k *Kernel) handleReplayedHeader(
 
 	// Only now that the replay is known to be acceptable do we touch the voting view and the round store;
 	// a rejected replay must leave no trace.
+
+	for r > s.Voting.Round {
+		// Later round than we expected.
+		// Each jump moves the voting view forward by one round,
+		// so keep jumping until the voting view is the replayed round.
+		if err := k.jumpVotingRound(ctx, s, r); err != nil {
+			return tmelink.ReplayedHeaderInternalError{
+				Err: fmt.Errorf(
+					"failed to jump voting round to replayed round: %w",
+					err,
+				),
+			}
+		}
+	}
 
 	// Now the voting view matches the height and round of the incoming replayed proof.
 	// It is possible that we already saw the incoming header and got stuck leading to a replay.
